@@ -234,8 +234,12 @@ def sigmoid(x: Array) -> tuple[Array, Array]:
         Log Jacobian determinant.
     """
     xp = array_namespace(x)
+    # log(s) + log(1 - s) for s = sigmoid(x), evaluated from x itself: taken
+    # from the rounded s it loses log(1 - s) for large positive x (wrong in
+    # float32 from x ~ 10, -inf from x ~ 17)
+    abs_x = xp.abs(x)
+    log_j = (-abs_x - 2 * xp.log1p(xp.exp(-abs_x))).sum(-1)
     x = xp.divide(1, 1 + xp.exp(-x))
-    log_j = (xp.log(x) + xp.log1p(-x)).sum(-1)
     return x, log_j
 
 
